@@ -289,13 +289,13 @@ class BoundedGaussian(Gaussian):
             return super().prob(p)
 
     def sample(self, size=None):
-        val = super().sample(size)
-        out = True
+        val = np.array(super().sample(size))
+        out = np.logical_or(val < self.lower_bound, val > self.upper_bound)
         while np.any(out):
+            val[out] = super().sample(np.sum(out))
             out = np.logical_or(val < self.lower_bound, val > self.upper_bound)
-            out = np.where(out)
-            val[out] = super().sample(len(out[0]))
-        return val
+        # val[()] turns the 0-d array of size=None back into a scalar
+        return val[()]
 
 
 class TransformedPrior(Prior):
